@@ -185,8 +185,15 @@ where
     {
         let cdf = fast_quantized_cdf::<Probability, F, PRECISION>(probabilities, normalization)?;
 
+        let mut symbols = symbols.into_iter();
         let mut extended_cdf = Vec::with_capacity(probabilities.len() + 1);
-        extended_cdf.extend(cdf.zip(symbols));
+        for left_cumulative in cdf {
+            extended_cdf.push((left_cumulative, symbols.next().ok_or(())?));
+        }
+        if symbols.next().is_some() {
+            // More symbols than probabilities.
+            return Err(());
+        }
         let last_symbol = extended_cdf.last().expect("`len` >= 2").1.clone();
         extended_cdf.push((wrapping_pow2(PRECISION), last_symbol));
 
